@@ -44,6 +44,40 @@ def apply_call(s, c):
 WARM = False
 
 
+class _Scribble:
+    """What a careless caller leaves in a container after handing it to d42."""
+
+    def __repr__(self):
+        return "<scribble>"
+
+
+SCRIBBLE = _Scribble()
+
+
+def scribble(c):
+    """The caller goes on using (here: ruins) a list/dict it passed to a declaration, to
+    from_native or to substitute.  Schemas built from it must not notice (C07); every check
+    builds its schemas this way, so one that kept a reference fails the check's own oracle."""
+    if isinstance(c, list):
+        for x in c:
+            scribble(x)
+        c.clear()
+        c.append(SCRIBBLE)
+    elif isinstance(c, dict):
+        for x in list(c.values()):
+            scribble(x)
+        c.clear()
+        c[SCRIBBLE] = SCRIBBLE
+
+
+def _own_copy(v):
+    if isinstance(v, list):
+        return [_own_copy(x) for x in v]
+    if type(v) is dict:
+        return {k: _own_copy(x) for k, x in v.items()}
+    return v
+
+
 def set_warm(flag):
     """Warm mode: every intermediate schema object a term is built from is first *used* through
     the public, supposedly pure operations (repr, ==, validate, fake) before it is refined,
@@ -116,7 +150,10 @@ class Builder:
                 if spec[0] == "typed":
                     s = s(self.build(spec[1]))
                 else:
-                    s = s([x if x is E else self.build(x) for x in spec[1]])
+                    arg = [x if x is E else self.build(x) for x in spec[1]]
+                    s = s(arg)
+                    arg.clear()              # the caller's list is the caller's
+                    arg.append(SCRIBBLE)
             for c in calls:
                 if WARM:
                     warm(s)
@@ -131,7 +168,10 @@ class Builder:
                 d[optional(key) if opt else key] = self.build(sub)
             if relaxed:
                 d[E] = E
-            return self._note(schema.dict(d), t)
+            s = schema.dict(d)
+            d.clear()                        # the caller's dict is the caller's
+            d[SCRIBBLE] = SCRIBBLE
+            return self._note(s, t)
         if k == "any":
             if t[1] is None:
                 return self._note(schema.any, t)
@@ -146,9 +186,15 @@ class Builder:
             d = self.build(t[1])
             return self._note(make_required(d) if t[2] is None else make_required(d, list(t[2])), t)
         if k == "native":
-            return self._note(from_native(t[1]), t)
+            v = _own_copy(t[1])
+            s = from_native(v)
+            scribble(v)
+            return self._note(s, t)
         if k == "subst":
-            return self._note(substitute(self.build(t[1]), t[2]), t)
+            v = _own_copy(t[2])
+            s = substitute(self.build(t[1]), v)
+            scribble(v)
+            return self._note(s, t)
         if k == "fwd":
             from .fwdtype import wrap
             return self._note(wrap(self.build(t[1])), t)
